@@ -100,6 +100,50 @@ class Pool:
             return True
         return self.ctx.violation(check, signature, message)
 
+    # ------------------------------------------------------------------ the caller's own plain arguments (C12)
+    def plain_guard(self, opname, **named):
+        """the caller's own lists / arrays handed to an operation (values to select, a new order, a permutation, bins):
+        unchanged by the call, and not wired into any object -- the caller reusing its list afterwards must not reach a
+        result.  Returns the function to call after the operation ('returned' / 'raised')."""
+        from .fp import fp_value
+        if self.prop != 'C12':
+            return lambda outcome='returned': None       # (the argument clause belongs to C12)
+        held = {k: v for k, v in named.items() if isinstance(v, (list, np.ndarray)) and len(v) > 0}
+
+        def snap(v):
+            return (type(v).__name__, getattr(v, 'dtype', None), fp_value(v))
+        snaps = {k: snap(v) for k, v in held.items()}
+
+        def after(outcome='returned'):
+            for k, v in held.items():
+                if snap(v) != snaps[k]:
+                    self.report('C12', 'plain_argument', f'argument-changed:{opname}:{k}:{outcome}',
+                                f'{opname} changed the caller\'s {k} from {str(snaps[k][2])[:200]} to {str(fp_value(v))[:200]}')
+                else:
+                    self.ctx.probe('plain_argument_kept:' + opname)
+            if outcome != 'returned':
+                return
+            edited = False
+            for k, v in held.items():
+                try:
+                    if isinstance(v, np.ndarray):
+                        if len(v) > 1:
+                            v[...] = v[::-1].copy()
+                            edited = True
+                    elif len(v) > 1:
+                        v.reverse()
+                        edited = True
+                    else:
+                        v.append(v[0])
+                        edited = True
+                except (ValueError, TypeError):
+                    pass          # read-only array
+            self._n_edits = getattr(self, '_n_edits', 0) + 1
+            if edited and self._n_edits % 2 == 0:
+                self.sweep(f'{opname}:caller-edits-own-argument')
+                self.ctx.probe('caller_edit_swept:' + opname)
+        return after
+
     # ------------------------------------------------------------------ after-op sweep over bystanders
     def sweep(self, opname, target=None, args=(), inplace=False, mut_class='none', produced=()):
         """compare every live object except the in-place target and freshly produced slots with its snapshot"""
